@@ -36,5 +36,5 @@ def generate(repo):
     ctext, cenv = P.translate_module_constants(src, tree)
     parts = [ctext] if str(ctext).strip() else []
     for py, ln, params in SPECS:
-        parts.append(P.translate_function(src, tree, py, lean_name=ln, const_env=cenv, params=params))
+        parts.append(P.translate_function(src, tree, py, lean_name=ln, const_env=cenv, params=params, emit_call_args=('exp',)))
     return {'FnIntegrated.lean': P.wrap_module(parts, REL)}
